@@ -305,7 +305,7 @@ class _PrangeRewriter:
         call = ast.Expr(value=ast.Call(
             func=_rt('parallel_for'),
             args=[args[0], ast.Name(id=tname, ctx=ast.Load()),
-                  ast.Constant(value='%s.%s:%d' % (self.modname.rsplit('.', 1)[-1], self.fn.name, loop.lineno))],
+                  ast.Constant(value='%s.%s/%d' % (self.modname.rsplit('.', 1)[-1], self.fn.name, self.k))],
             keywords=[]))
         res = [ast.copy_location(tdef, loop), ast.copy_location(call, loop)]
         for r in res:
@@ -448,6 +448,8 @@ class _Finder(importlib.abc.MetaPathFinder, importlib.abc.Loader):
         variant = self._variant(fullname)
         p, is_pkg = self._path(fullname)
         module.__dict__['__sim_rt__'] = _RT
+        if variant == 'sim':
+            import e1_threads.sched  # noqa: F401  (registers simnumba / simnp and rt.SIM)
         if p is None:
             module.__version__ = '0+verif'
             return
